@@ -221,6 +221,12 @@ def build(tier='quick'):
             if order:
                 vs.reverse()
             add(f'bounds-string-{a}-{b}-{order}', 'full', decl_src('string', f'validate({", ".join(vs)})'), ok, f'string: `{", ".join(vs)}`')
+    # bounds written as large non-decimal literals (typed by inference from the inner type)
+    add('bounds-u64-big-hex', 'full', decl_src('int', 'validate(less = 0xFF_FFFF_FFFF)', inner='u64'), True, 'u64: `less = 0xFF_FFFF_FFFF`')
+    add('bounds-i128-big-expr', 'full', decl_src('int', 'validate(less_or_equal = (2_000_000_000 + 2_000_000_000))', inner='i128'), True, 'i128: sum of unsuffixed literals above i32::MAX')
+    add('bounds-u128-shift', 'full', decl_src('int', 'validate(greater_or_equal = (1 << 100))', inner='u128'), True, 'u128: `greater_or_equal = (1 << 100)`')
+    add('bounds-string-big-hex', 'full', decl_src('string', 'validate(len_char_max = 0x1_0000_0000)'), True, 'string: `len_char_max = 0x1_0000_0000`')
+    add('bounds-f32-big', 'full', decl_src('float', 'validate(less = 1e38)', inner='f32'), True, 'f32: `less = 1e38`')
     # expression bounds cannot be evaluated by the macro: accepted (the generated unit test guards them)
     add('bounds-int-expr-contradict', 'full', decl_src('int', 'validate(greater_or_equal = K * 2, less_or_equal = K)'), True, 'int: contradictory expression bounds are accepted at compile time')
     add('bounds-float-expr-contradict', 'full', decl_src('float', 'validate(greater_or_equal = KF * 2.0, less_or_equal = KF)'), True, 'float: contradictory expression bounds accepted at compile time')
